@@ -172,6 +172,8 @@ pub struct HolderPair {
     pub b: (String, Fmt),
     pub calls: Vec<PresentArgs>,
     pub origin: Value,
+    /// the issuer's key, when the presentations of the two holders are also to be verified
+    pub issuer: Option<crate::keys::KeyId>,
 }
 
 fn present_args_of_json(v: &Value) -> Option<PresentArgs> {
@@ -186,7 +188,7 @@ fn present_args_of_json(v: &Value) -> Option<PresentArgs> {
 
 fn holder_pair_json(h: &HolderPair) -> Value {
     json!({"holder_pair": {"a": {"input": h.a.0, "fmt": h.a.1.name()}, "b": {"input": h.b.0, "fmt": h.b.1.name()},
-                           "calls": h.calls.iter().map(|c| c.json()).collect::<Vec<_>>()},
+                           "calls": h.calls.iter().map(|c| c.json()).collect::<Vec<_>>(), "issuer": h.issuer.map(|k| k.id())},
            "origin": h.origin})
 }
 
@@ -198,6 +200,7 @@ fn holder_pair_of_json(c: &Value) -> Option<HolderPair> {
         b: side("b")?,
         calls: h.get("calls")?.as_array()?.iter().filter_map(present_args_of_json).collect(),
         origin: c.get("origin").cloned().unwrap_or(Value::Null),
+        issuer: h.get("issuer").and_then(Value::as_u64).and_then(crate::props::key_by_id),
     })
 }
 
@@ -244,6 +247,22 @@ pub fn run_holder_pairs(ctx: &mut Ctx, hps: &[HolderPair]) -> Vec<Vec<Option<Str
                             problems.push(format!("presentation {}: a key-binding JWT is attached in one form only", k));
                         }
                         ctx.count(&format!("holder.presented.{}", match x.disclosures.len() { 0 => "0", 1 => "1", _ => "2+" }));
+                        // what each holder handed out is verified as it is, in its own form: the same verdict and claims
+                        if let Some(ik) = h.issuer {
+                            let call = &h.calls[k];
+                            let va = verify(&VerifyArgs { input: pa.clone(), fmt: h.a.1, resolver: Resolver::always(ik), aud: call.aud.clone(), nonce: call.nonce.clone() });
+                            let vb = verify(&VerifyArgs { input: pb.clone(), fmt: h.b.1, resolver: Resolver::always(ik), aud: call.aud.clone(), nonce: call.nonce.clone() });
+                            ctx.impl_calls += 2;
+                            match (&va.out, &vb.out) {
+                                (Outcome::Ok(c1), Outcome::Ok(c2)) => {
+                                    if c1 != c2 {
+                                        problems.push(format!("presentation {}: the two holders' presentations verify to different claims", k));
+                                    }
+                                }
+                                (Outcome::Err(_), Outcome::Err(_)) => ctx.count("holder.presentations_both_rejected"),
+                                (x1, x2) => problems.push(format!("presentation {}: the {} holder's own presentation is {} by the verifier, the {} holder's is {}", k, h.a.1.name(), x1.class(), h.b.1.name(), x2.class())),
+                            }
+                        }
                     }
                     _ => problems.push(format!("presentation {}: not in the holder's serialization format", k)),
                 },
@@ -286,7 +305,7 @@ pub fn run(ctx: &mut Ctx, replay: Option<&str>) {
             let fmt = Fmt::from_name(case.get("fmt").and_then(Value::as_str).unwrap_or("compact"));
             let mut r = ctx.rng.fork(1);
             if let Ok((own, other, _)) = transcode(&mut r, input, fmt) {
-                let h = HolderPair { a: (own, fmt), b: (other, fmt.other()), calls: calls.iter().filter_map(present_args_of_json).collect(), origin: Value::Null };
+                let h = HolderPair { a: (own, fmt), b: (other, fmt.other()), calls: calls.iter().filter_map(present_args_of_json).collect(), origin: Value::Null, issuer: None };
                 run_holder_pairs(ctx, &[h]);
             }
         } else if let Some(args) = verify_args_of_json(&case) {
@@ -335,7 +354,7 @@ pub fn run(ctx: &mut Ctx, replay: Option<&str>) {
                 let mut rev = f.present_args();
                 rev.sel = reorder_members(&mut r, &select_all(&f.issue.claims), true).as_object().cloned().unwrap_or_default();
                 vec![f.present_args(), second, PresentArgs::plain(gen_selection(&mut r, &f.issue.claims, 4).as_object().cloned().unwrap_or_default()), rev]
-            }, origin: origin.clone() });
+            }, origin: origin.clone(), issuer: Some(f.issue.key) });
             flows.push(f);
         }
     }
